@@ -263,7 +263,16 @@ class YncaConnection:
             self._protocol._disconnect_callback = None
 
         if self._readerthread:
-            self._readerthread.close()
+            if threading.current_thread() is self._readerthread:
+                # Called from within a callback, so on the reader thread itself.
+                # It can not wait for itself to finish (join would raise and leave the port open).
+                # Stop delivering messages, tell the thread to stop and release the port,
+                # the thread ends when the callback returns.
+                self._message_callbacks = set()
+                self._readerthread.alive = False
+                self._readerthread.serial.close()
+            else:
+                self._readerthread.close()
 
     def raw(self, raw_data: str):
         if self._protocol:
